@@ -69,7 +69,7 @@ func buildUniverse(t *testing.T, hostsSel func(h string) bool, schemes []string,
 		hs = append(hs, hdesc{h.host, h.ip, h.ip6})
 	}
 	l253 := longHost(253)
-	hs = append(hs, hdesc{l253, false, false}, hdesc{l253[1:], false, false})
+	hs = append(hs, hdesc{l253, false, false}, hdesc{l253[1:], false, false}, hdesc{l253 + ".", false, false}, hdesc{l253[4:] + ".", false, false})
 	for _, h := range hs {
 		if hostsSel != nil && !hostsSel(h.host) {
 			continue
@@ -80,7 +80,7 @@ func buildUniverse(t *testing.T, hostsSel func(h string) bool, schemes []string,
 			}
 			for _, pt := range ports {
 				for _, subs := range []bool{false, true} {
-					if subs && (h.ip || len(h.host) > 251) {
+					if subs && (h.ip || len(h.host) > 251 || (len(h.host) > 250 && strings.HasSuffix(h.host, "."))) {
 						continue
 					}
 					sp := PatSpec{Scheme: sch, Subs: subs, Host: h.host, IP6: h.ip6, Port: pt}
